@@ -18,6 +18,9 @@ use vcore::runner::*;
 pub struct Cmd {
     pub doc: Vec<u8>,
     pub from_stdin: bool,
+    /// the kind of object behind the document: 0 as `from_stdin` says (regular file / plain stdin),
+    /// 1 a named pipe given as --file, 2 --file=/dev/stdin with the document piped to stdin
+    pub doc_object: u8,
     pub job_name: Option<String>,
     pub user_name: Option<String>,
     pub options: Vec<(String, String)>,
@@ -98,13 +101,20 @@ fn cmd() -> BoxedStrategy<Cmd> {
             }
             // a scripted upload abort needs the Print-Job to be the first connection: -n
             let no_check = no_check || abort_upload.is_some();
-            Cmd { doc, from_stdin, job_name, user_name, options, no_check, headers: hm.into_iter().collect(), scheme_ipp, path, gpa_http, gpa_status, state, reasons, pj_http, pj_status, bare_options, abort_upload }
+            // one case in six hands the document over through a named pipe or /dev/stdin
+            let doc_object = match (doc.len() + options.len() * 7 + bare_options.len()) % 12 {
+                0 => 1,
+                1 => 2,
+                _ => 0,
+            };
+            let from_stdin = if doc_object != 0 { doc_object == 2 } else { from_stdin };
+            Cmd { doc_object, doc, from_stdin, job_name, user_name, options, no_check, headers: hm.into_iter().collect(), scheme_ipp, path, gpa_http, gpa_status, state, reasons, pj_http, pj_status, bare_options, abort_upload }
         })
         .boxed()
 }
 
 fn cmd_json(c: &Cmd) -> Value {
-    json!({"doc": hex(&c.doc), "from_stdin": c.from_stdin, "job_name": c.job_name, "user_name": c.user_name, "options": c.options, "bare_options": c.bare_options, "abort_upload": c.abort_upload, "no_check": c.no_check, "headers": c.headers, "scheme_ipp": c.scheme_ipp, "path": c.path,
+    json!({"doc": hex(&c.doc), "doc_object": c.doc_object, "from_stdin": c.from_stdin, "job_name": c.job_name, "user_name": c.user_name, "options": c.options, "bare_options": c.bare_options, "abort_upload": c.abort_upload, "no_check": c.no_check, "headers": c.headers, "scheme_ipp": c.scheme_ipp, "path": c.path,
         "printer": {"gpa_http": c.gpa_http, "gpa_status": c.gpa_status, "state": c.state, "reasons": c.reasons, "pj_http": c.pj_http, "pj_status": c.pj_status}})
 }
 
@@ -114,6 +124,7 @@ fn cmd_from_json(v: &Value) -> Option<Cmd> {
     Some(Cmd {
         doc: unhex(v.get("doc")?.as_str()?)?,
         from_stdin: v.get("from_stdin")?.as_bool()?,
+        doc_object: v.get("doc_object").and_then(|d| d.as_u64()).unwrap_or(0) as u8,
         job_name: v.get("job_name")?.as_str().map(|s| s.to_string()),
         user_name: v.get("user_name")?.as_str().map(|s| s.to_string()),
         options: pairs("options")?,
@@ -228,7 +239,28 @@ pub fn judge(c: &Cmd, p: &Probe) -> Judge {
         args.push("-n".into());
     }
     let tmp;
-    if !c.from_stdin {
+    let mut fifo_writer = None;
+    if c.doc_object == 1 {
+        // a named pipe: its stat size says nothing about its content
+        tmp = std::env::temp_dir().join(format!("verif-c18-{}-{:x}.fifo", std::process::id(), hash64(&(c, server.port, server.conn_count()))));
+        let cpath = std::ffi::CString::new(tmp.display().to_string()).unwrap();
+        if unsafe { libc::mkfifo(cpath.as_ptr(), 0o600) } != 0 {
+            return Err(Fail::new("infra/mkfifo", format!("{}", std::io::Error::last_os_error())));
+        }
+        let (path, doc) = (tmp.clone(), c.doc.clone());
+        fifo_writer = Some(std::thread::spawn(move || {
+            // blocks until somebody opens the pipe for reading
+            if let Ok(mut f) = std::fs::OpenOptions::new().write(true).open(&path) {
+                let _ = f.write_all(&doc);
+            }
+        }));
+        args.push(format!("--file={}", tmp.display()));
+        p.label("document through a named pipe");
+    } else if c.doc_object == 2 {
+        tmp = std::path::PathBuf::new();
+        args.push("--file=/dev/stdin".to_string());
+        p.label("document through --file=/dev/stdin");
+    } else if !c.from_stdin {
         tmp = std::env::temp_dir().join(format!("verif-c18-{}-{:x}.bin", std::process::id(), hash64(&(c, server.port))));
         std::fs::write(&tmp, &c.doc).map_err(|e| Fail::new("infra/tmpfile", format!("{e}")))?;
         args.push(format!("--file={}", tmp.display()));
@@ -297,7 +329,20 @@ pub fn judge(c: &Cmd, p: &Probe) -> Judge {
     };
     let _ = feeder.join();
     let out = child.wait_with_output().ok();
-    if !c.from_stdin {
+    if let Some(w) = fifo_writer {
+        // if ipputil never opened the pipe the writer still waits for a reader: be that reader
+        use std::os::unix::fs::OpenOptionsExt;
+        if let Ok(mut f) = std::fs::OpenOptions::new().read(true).custom_flags(libc::O_NONBLOCK).open(&tmp) {
+            let mut sink = [0u8; 65536];
+            let t1 = Instant::now();
+            while !w.is_finished() && t1.elapsed() < Duration::from_secs(20) {
+                let _ = std::io::Read::read(&mut f, &mut sink);
+                std::thread::sleep(Duration::from_millis(1));
+            }
+        }
+        let _ = w.join();
+    }
+    if !tmp.as_os_str().is_empty() {
         let _ = std::fs::remove_file(&tmp);
     }
     let Some(status) = status else {
@@ -424,7 +469,7 @@ pub fn judge(c: &Cmd, p: &Probe) -> Judge {
 
 pub fn run(ctx: &Ctx) {
     ctx.shrink_iters.store(200, std::sync::atomic::Ordering::Relaxed);
-    ctx.set_rule("proptest-generated command lines for the REAL ipputil binary built from /repo (document from --file or stdin, 0 B-256 KiB of arbitrary bytes; optional --job-name / --user-name (any UTF-8); 0-6 --option key=value with values of each textual class: true/false, decimal i32 incl. sign, leading zeros, +-2^31 edges, keywords, values containing '=', near-misses like 'True', ' 7', '1e3'; duplicate keys; 0-2 further --option arguments WITHOUT '=' at generated positions among them (not key=value options: they carry nothing and must not disturb the others); -n on/off; 0-2 --header) x scripted printer on a loopback HTTP server (Get-Printer-Attributes answer: HTTP status, IPP status, state 3/4/5, reasons absent/informational/with a blocking keyword at any position; Print-Job answer: HTTP status, IPP status; in 10 % of the cases (with -n) the printer resets the connection in the middle of the upload: exit status non-zero, and any Print-Job that arrives completely afterwards must still carry the whole document). Oracle: transcript model (which operations the printer sees, in order), Print-Job payload == document bytes, attributes == expected model with options typed by the harness's own classifier, custom headers on every request, exit status 0 <=> every exchange succeeded with a successful status and the gate did not block. Non-trivial = document >= 1 KiB or from stdin, with >= 1 option and the state check active; distinct by (command line, script) hash.");
+    ctx.set_rule("proptest-generated command lines for the REAL ipputil binary built from /repo (document from --file or stdin - one case in six through a named pipe given as --file or through --file=/dev/stdin, objects whose size on disk says nothing about their content -, 0 B-256 KiB of arbitrary bytes; optional --job-name / --user-name (any UTF-8); 0-6 --option key=value with values of each textual class: true/false, decimal i32 incl. sign, leading zeros, +-2^31 edges, keywords, values containing '=', near-misses like 'True', ' 7', '1e3'; duplicate keys; 0-2 further --option arguments WITHOUT '=' at generated positions among them (not key=value options: they carry nothing and must not disturb the others); -n on/off; 0-2 --header) x scripted printer on a loopback HTTP server (Get-Printer-Attributes answer: HTTP status, IPP status, state 3/4/5, reasons absent/informational/with a blocking keyword at any position; Print-Job answer: HTTP status, IPP status; in 10 % of the cases (with -n) the printer resets the connection in the middle of the upload: exit status non-zero, and any Print-Job that arrives completely afterwards must still carry the whole document). Oracle: transcript model (which operations the printer sees, in order), Print-Job payload == document bytes, attributes == expected model with options typed by the harness's own classifier, custom headers on every request, exit status 0 <=> every exchange succeeded with a successful status and the gate did not block. Non-trivial = document >= 1 KiB or from stdin, with >= 1 option and the state check active; distinct by (command line, script) hash.");
     ctx.assume("only printer states for which the readiness truth table is defined (state 3/4/5, keyword reasons) are scripted");
     let (shards, per) = ctx.tier.pick((16, 75), (16, 1500));
     run_prop(ctx, "print", shards, per, cmd, judge, cmd_json);
